@@ -154,9 +154,18 @@ func cmdCheck(args []string) int {
 			discharged++
 		case "bounded":
 		default:
+			if r.O.Kind == "uncontracted" || r.O.Kind == "unsupported" {
+				// the function now calls something without a contract, or uses a construct outside the verified
+				// subset: the proof of what follows cannot be attempted. Undecided (drift), not a violation - an
+				// extracted helper or a new call into the standard library must not raise an alarm; the bounded
+				// stand-ins of the property still decide the behaviour.
+				drift = append(drift, "left the verified subset: "+r.O.Name+" ("+r.O.Desc+")")
+				continue
+			}
 			failed = append(failed, r)
 		}
 	}
+	sort.Strings(drift)
 	for _, d := range drift {
 		fmt.Println("DRIFT:", d)
 	}
